@@ -135,6 +135,14 @@ func (d Doc) forRender() Doc {
 	return c
 }
 
+// Clone deep-copies the document (evaluator-only fields included).
+func (d Doc) Clone() Doc {
+	b, _ := json.Marshal(d)
+	var c Doc
+	_ = json.Unmarshal(b, &c)
+	return c
+}
+
 // RenderJSON renders the document as JSON text.
 func (d Doc) RenderJSON() []byte {
 	d = d.forRender()
